@@ -443,3 +443,5 @@ def run(ck):
         c15_3(ck, prog)
         c15_4(ck, prog)
         c15_4b(ck, prog)
+        from rules.C11 import c11_6
+        c11_6(ck, prog, 'C15.8')
